@@ -489,6 +489,8 @@ func specRpqR(q *receivePayloadQueue, o uint32) bool {
 //@ func getFirstNonZeroBit
 //@   requires#range 0 <= start && start < 64 && end == 64
 //@   ensures#found result1 ==> start <= result0 && result0 < 64 && val>>uint(result0)&1 == 1
+//@   ensures#first-mask result1 ==> (val>>uint(start))&(1<<uint(result0-start)-1) == 0
+//@   ensures#none-mask !result1 ==> val>>uint(start) == 0
 //@   ensures#first result1 ==> forall b int :: start <= b && b < result0 ==> val>>uint(b)&1 == 0
 //@   ensures#none !result1 ==> forall b int :: start <= b && b < 64 ==> val>>uint(b)&1 == 0
 //@   tags C05
@@ -497,6 +499,8 @@ func specRpqR(q *receivePayloadQueue, o uint32) bool {
 //@ func getFirstZeroBit
 //@   requires#range 0 <= start && start < 64 && end == 64
 //@   ensures#found result1 ==> start <= result0 && result0 < 64 && val>>uint(result0)&1 == 0
+//@   ensures#first-mask result1 ==> (^val>>uint(start))&(1<<uint(result0-start)-1) == 0
+//@   ensures#none-mask !result1 ==> ^val>>uint(start) == 0
 //@   ensures#first result1 ==> forall b int :: start <= b && b < result0 ==> val>>uint(b)&1 == 1
 //@   ensures#none !result1 ==> forall b int :: start <= b && b < 64 ==> val>>uint(b)&1 == 1
 //@   tags C05
@@ -505,8 +509,55 @@ func specRpqR(q *receivePayloadQueue, o uint32) bool {
 //@ func receivePayloadQueue.getGapAckBlocks
 //@   requires rpqInv(q)
 //@   requires rpqCount(q)
-//@   loop 1 invariant#I0 tsn-q.cumulativeTSN >= 1 && tsn-q.cumulativeTSN <= q.tailTSN-q.cumulativeTSN+64 &&
-//@      (findEnd ==> tsn-q.cumulativeTSN <= q.tailTSN-q.cumulativeTSN)
+//@   requires#window-fits-16-bits q.maxTSNOffset <= 65471
+//@   loop 1 invariant#I0 tsn-q.cumulativeTSN >= 1 && tsn-q.cumulativeTSN <= q.tailTSN-q.cumulativeTSN+64
+//@   loop 1 invariant#I1 forall k int :: 0 <= k && k < len(gapAckBlocks) ==>
+//@      1 <= gapAckBlocks[k].start && gapAckBlocks[k].start <= gapAckBlocks[k].end && uint32(gapAckBlocks[k].end) <= q.tailTSN-q.cumulativeTSN
+//@   loop 1 invariant#I2 forall k int :: 0 <= k && k < len(gapAckBlocks)-1 ==> uint32(gapAckBlocks[k].end)+1 < uint32(gapAckBlocks[k+1].start)
+//@   loop 1 invariant#I3 forall k int, o uint32 :: 0 <= k && k < len(gapAckBlocks) && uint32(gapAckBlocks[k].start) <= o && o <= uint32(gapAckBlocks[k].end) ==> specRpqR(q, o)
+//@   loop 1 invariant#I3b len(gapAckBlocks) > 0 ==> !specRpqR(q, uint32(gapAckBlocks[len(gapAckBlocks)-1].end)+1) &&
+//@      uint32(gapAckBlocks[len(gapAckBlocks)-1].end) < tsn-q.cumulativeTSN
+//@   loop 1 invariant#I4a forall o uint32 :: len(gapAckBlocks) == 0 && 1 <= o && o < ite(findEnd, uint32(ackBlock.start), tsn-q.cumulativeTSN) ==> !specRpqR(q, o)
+//@   loop 1 invariant#I4b forall o uint32 :: len(gapAckBlocks) > 0 && 1 <= o && o < uint32(gapAckBlocks[0].start) ==> !specRpqR(q, o)
+//@   loop 1 invariant#I4c forall k int, o uint32 :: 0 <= k && k < len(gapAckBlocks)-1 && uint32(gapAckBlocks[k].end) < o && o < uint32(gapAckBlocks[k+1].start) ==> !specRpqR(q, o)
+//@   loop 1 invariant#I4d forall o uint32 :: len(gapAckBlocks) > 0 && uint32(gapAckBlocks[len(gapAckBlocks)-1].end) < o && o < ite(findEnd, uint32(ackBlock.start), tsn-q.cumulativeTSN) ==> !specRpqR(q, o)
+//@   loop 1 invariant#I5 findEnd && tsn-q.cumulativeTSN <= q.tailTSN-q.cumulativeTSN ==> 1 <= ackBlock.start && uint32(ackBlock.start) <= tsn-q.cumulativeTSN &&
+//@      (uint32(ackBlock.start) == tsn-q.cumulativeTSN ==> specRpqBit(q, tsn)) &&
+//@      (len(gapAckBlocks) > 0 ==> uint32(gapAckBlocks[len(gapAckBlocks)-1].end)+1 < uint32(ackBlock.start))
+//@   loop 1 invariant#I5b forall o uint32 :: findEnd && tsn-q.cumulativeTSN <= q.tailTSN-q.cumulativeTSN && uint32(ackBlock.start) <= o && o < tsn-q.cumulativeTSN ==> specRpqR(q, o)
+//@   loop 1 invariant#I5d findEnd && tsn-q.cumulativeTSN > q.tailTSN-q.cumulativeTSN ==> uint32(ackBlock.start) == tsn-q.cumulativeTSN
 //@   loop 1 decreases 2*(int(q.tailTSN-q.cumulativeTSN)+65-int(tsn-q.cumulativeTSN)) + ite(findEnd == specRpqBit(q, tsn), 0, 1)
+//@   at store gapAckBlock.end@1 assert#closed-run-is-received{C05,LEMMA} forall o uint32 :: uint32(ackBlock.start) <= o && o <= uint32(stored) && o <= q.tailTSN-q.cumulativeTSN ==> specRpqR(q, o)
+//@   at store gapAckBlock.end@3 assert#last-run-is-received{C05,LEMMA} forall o uint32 :: uint32(ackBlock.start) <= o && o <= uint32(stored) ==> specRpqR(q, o)
+//@   proof closed-run-is-received uses I5b first none
+//@   proof last-run-is-received uses I5b first none
+//@   proof I0 uses -
+//@   proof decreases uses -
+//@   proof I1 uses I1
+//@   proof I2 uses I2
+//@   proof I3 uses I3 closed-run-is-received last-run-is-received
+//@   proof I3b uses
+//@   proof I4a uses I4a
+//@   proof I4b uses I4b I4a
+//@   proof I4c uses I4c I4d
+//@   proof I4d uses I4d
+//@   proof I5 uses
+//@   proof I5b uses I5b
+//@   proof I5d uses -
+//@   ensures#P1-in-range forall k int :: 0 <= k && k < len(gapAckBlocks) ==>
+//@      1 <= gapAckBlocks[k].start && gapAckBlocks[k].start <= gapAckBlocks[k].end && uint32(gapAckBlocks[k].end) <= q.tailTSN-q.cumulativeTSN
+//@   ensures#P2-increasing-and-apart forall k int :: 0 <= k && k < len(gapAckBlocks)-1 ==> uint32(gapAckBlocks[k].end)+1 < uint32(gapAckBlocks[k+1].start)
+//@   ensures#P3-only-received-tsns forall k int, o uint32 :: 0 <= k && k < len(gapAckBlocks) && uint32(gapAckBlocks[k].start) <= o && o <= uint32(gapAckBlocks[k].end) ==> specRpqR(q, o)
+//@   ensures#P5a-nothing-received-before-the-first-block forall o uint32 :: len(gapAckBlocks) > 0 && 1 <= o && o < uint32(gapAckBlocks[0].start) ==> !specRpqR(q, o)
+//@   ensures#P5b-nothing-received-between-blocks forall k int, o uint32 :: 0 <= k && k < len(gapAckBlocks)-1 && uint32(gapAckBlocks[k].end) < o && o < uint32(gapAckBlocks[k+1].start) ==> !specRpqR(q, o)
+//@   ensures#P5c-nothing-received-after-the-last-block forall o uint32 :: len(gapAckBlocks) > 0 && uint32(gapAckBlocks[len(gapAckBlocks)-1].end) < o ==> !specRpqR(q, o)
+//@   ensures#P5d-empty-means-nothing-received forall o uint32 :: len(gapAckBlocks) == 0 ==> !specRpqR(q, o)
+//@   proof P1-in-range uses I1
+//@   proof P2-increasing-and-apart uses I2
+//@   proof P3-only-received-tsns uses I3 closed-run-is-received last-run-is-received
+//@   proof P5a-nothing-received-before-the-first-block uses I4b I4a
+//@   proof P5b-nothing-received-between-blocks uses I4c I4d
+//@   proof P5c-nothing-received-after-the-last-block uses I4d
+//@   proof P5d-empty-means-nothing-received uses I4a rpqInv.zero
 //@   tags C05 C16
 //@   safety C03
